@@ -254,7 +254,8 @@ def variant_lines():
         out["texture-not-in-tables@" + P] = _tok(base, "project", "vx_" + P)
         if b["field"]:
             out["unknown-field-id@" + P] = _tok(base, "project", "vf_" + P)
-        if b["til"]:
+        if b["til"] and P not in ("ex3", "rue", "bulk"):
+            # with AutoHarvest on (ex3, rue, bulk) a tillage inside the growing period waits for the harvest (fix F35): a valid line there
             out["tillage-before-harvest@" + P] = _tok(base, "project", "vt_" + P)
     out["unknown-gw-id@ex3"] = _tok(VALID["ex3a"], "gwId", "zzz")
     out["soil-without-gw-series@ex3"] = _tok(VALID["ex3a"], "soilId", "001")
@@ -264,6 +265,7 @@ def variant_lines():
 
 
 VARIANTS = variant_lines()
+VARIANTS_VALID = {"tillage-waits-for-auto-harvest@" + P: _tok(VALID[VARIANT_BASES[P]["valid"]], "project", "vt_" + P) for P in ("ex3", "rue", "bulk")}
 
 
 def make_variant_inputs(ex):
@@ -343,8 +345,13 @@ INTERP_BASES = {
     "ex1":  "project=ex1 WeatherFolder=historical soilId=075 fcode=109_120 plotNr=10001 Altitude=73 Latitude=52.6732 poligonID=29872 EndDate=12311982",
     "ex2":  "project=ex2 WeatherFolder=historical soilId=002 plotNr=10001 Altitude=73 Latitude=52.6732 poligonID=29872 EndDate=12311982",
     "rue":  "project=rue WeatherFolder=historical fcode=109_120 plotNr=10001 soilId=001 Altitude=73 Latitude=52.6732 poligonID=29872 EndDate=31121982",
+    # crop parameters read from yml, parameter folder given on the line: lines of one session using DIFFERENT parameter folders
+    "ex1yml": "project=ex1 WeatherFolder=historical soilId=075 fcode=109_120 plotNr=10001 Altitude=73 Latitude=52.6732 poligonID=29872 EndDate=12311982 CropParameterFormat=yml parameter=./parameter",
+    "zucyml": "project=zuc WeatherFolder=historical fcode=109_120 plotNr=10001 soilId=001 Altitude=73 Latitude=52.6732 poligonID=29872 EndDate=31121982 CropParameterFormat=yml parameter=./parameter",
 }
-INTERP_KEYS = {   # project -> [(key=value[ key=value]) ...]; GroundWaterFrom: 0 polygonfile, 1 soilfile, 2 gwTimeSeries
+INTERP_KEYS = {
+    "ex1yml": ["parameter=./parameter_b", "parameter=./parameter_c"],
+    "zucyml": ["parameter=./parameter_c", "parameter=./parameter_b"],   # project -> [(key=value[ key=value]) ...]; GroundWaterFrom: 0 polygonfile, 1 soilfile, 2 gwTimeSeries
     "ex3":  ["GroundWaterFrom=1", "GroundWaterFrom=0", "PTF=1", "PTF=3", "LeachingDepth=9", "EndDate=12311981", "AutoIrrigation=0", "Fertilization=50"],
     "bulk": ["GroundWaterFrom=0", "PTF=2", "PTF=4", "LeachingDepth=9", "EndDate=12311983", "ETpot=1", "InitSelection=1", "AutoFertilization=0"],
     "ex1":  ["GroundWaterFrom=0", "CropFileFormat=txt", "WeatherFileFormat=2 WeatherFile=%s.w6d", "PTF=1", "CO2method=1", "EndDate=12311983", "KcFactorBareSoil=0.8"],
@@ -371,9 +378,25 @@ def interp_lines():
 INTERP, INTERP_GROUPS = interp_lines()
 
 
+def make_param_variants(ex):
+    """parameter_b / parameter_c: copies of the parameter folder with edited yml crop parameters (scenario study)"""
+    for name, fac in (("parameter_b", 0.7), ("parameter_c", 1.25)):
+        d = os.path.join(ex, name)
+        if os.path.isdir(d):
+            continue
+        shutil.copytree(os.path.join(ex, "parameter"), d)
+        for fn in os.listdir(d):
+            if fn.endswith(".yml"):
+                p = os.path.join(d, fn)
+                t = open(p).read()
+                t = re.sub(r"^MAXAMAX: ([0-9.]+)", lambda m: "MAXAMAX: %g" % (float(m.group(1)) * fac), t, flags=re.M)
+                open(p, "w").write(t)
+
+
 def run_interp_groups(binary, ex, rng, concs=(1, 3), timeout=120):
     """solo run of every line + every group batch forwards and backwards at concurrency 1 and shuffled at the others.
     Returns (solo: name -> (Exec, digest), runs: [(Exec, [digest per line])])"""
+    make_param_variants(ex)
     jobs = [lambda k=k: (k, run_batch(binary, ex, "iks_" + re.sub(r"\W", "_", k), [k], INTERP, 1, 4, timeout=timeout)) for k in INTERP]
     solo = {}
     for k, e in parallel(jobs, 6):
@@ -595,10 +618,7 @@ SWEEP = sweep_lines()
 _NV = {"soil file without fractions: run error 'does not sum up to 100 percent'": ["sw:%s:PTF=%d" % (P, i) for P in ("rue", "zuc", "MUN") for i in (1, 2, 3, 4)],
        "soil file without groundwater column: the reader panics (configuration does not fit the file)": ["sw:%s:GroundWaterFrom=1" % P for P in ("rue", "zuc", "MUN")],
        "no managementout_conf.yml in the project: the program writes a default one and stops (log.Fatal by design)": ["sw:ex1:ManagementEvents=1", "sw:MUN:ManagementEvents=1"],
-       "no preco.txt in the weather folder: log.Fatal": ["sw:%s:CorrectionPrecipitation=1" % P for P in ("ex1", "ex3", "rue", "zuc", "bulk")],
-       "rotation/tillage dates do not fit this harvest mode: run error 'tillage date ... before harvest'": [
-           "sw:bulk:AutoSowingHarvest=0", "sw:bulk:AutoSowingHarvest=0+AutoHarvest=1", "sw:ex3:AutoSowingHarvest=0", "sw:ex3:AutoSowingHarvest=0+AutoHarvest=1",
-           "sw:ex1:AutoHarvest=1", "sw:ex1:AutoHarvest=1+AutoFertilization=0", "sw:ex1:AutoSowingHarvest=0+AutoHarvest=1"]}
+       "no preco.txt in the weather folder: log.Fatal": ["sw:%s:CorrectionPrecipitation=1" % P for P in ("ex1", "ex3", "rue", "zuc", "bulk")]}
 SWEEP_NOT_VALID = {n: why for why, names in _NV.items() for n in names}
 
 # C11: every ex1-based error class also under the non-default routes (error class x input variant)
